@@ -1505,10 +1505,17 @@ func (c *Curve[B, S]) scalarMulFakeGLV(Q *AffinePoint[B], s *emulated.Element[S]
 	// 		    = [3]R
 	c.AssertIsEqual(Acc, tableR[2])
 
-	return &AffinePoint[B]{
+	res := &AffinePoint[B]{
 		X: *R[0],
 		Y: *R[1],
 	}
+	if cfg.CompleteArithmetic {
+		// when s=0 or Q=(0,0) the check above is void and the hinted point is
+		// not constrained: return the known result (0,0) instead.
+		zero := c.baseApi.Zero()
+		res = c.Select(c.api.Or(selector1, selector2), &AffinePoint[B]{X: *zero, Y: *zero}, res)
+	}
+	return res
 }
 
 // scalarMulGLVAndFakeGLV computes [s]P and returns it. It doesn't modify P nor s.
